@@ -6,7 +6,7 @@ identifier (fresh / in use by the same type / by another type / mentioned
 only).  Namespace invariants in every state, NotUniqueError + unchanged state
 on every clash, exact textual substitution on every successful rename."""
 import gfapy
-from .. import explore, observe, universe
+from .. import explore, observe, universe, invariants
 from ..ref import doc as refdoc
 from . import c05, c08
 
@@ -38,7 +38,10 @@ U2 += [T(["E", "*", "s+", "t-", "0", "2", "0", "2", "*"]), T(["U", "*", "s"]),
        T(["O", "*", "t+"]), T(["G", "*", "s-", "t+", "1", "*"]), T(["S", "s", "4", "*"]),
        T(["U", "y", "x"]), T(["O", "2", "x+"]), T(["U", "1", "x 2"]),
        T(["E", "y", "s+", "2-", "0", "1", "0", "1", "*"]),   # `2` as a segment
-       T(["G", "x", "2+", "s-", "1", "*"])]
+       T(["G", "x", "2+", "s-", "1", "*"]),
+       # a further line of group x (which group 1 lists): the merged group
+       # must be the line every referrer sees
+       T(["U", "x", "y"]), T(["O", "2", "s+"])]
 
 
 def classify(d, op):
@@ -148,7 +151,7 @@ class S(explore.Spec):
             [("skip", "left open, refused, namespace unchanged")]
       if err is None:
         # accepted: whichever outcome gfapy chose, the namespace is coherent
-        probs = self.coherence_problems(g)
+        probs = invariants.namespace_coherence(g)
         if probs:
           return [("open-op-incoherent-namespace", p) for p in probs]
       return [("skip", "left open: " + str(info))]
